@@ -221,6 +221,7 @@ class C11(Prop):
         objs = case['objs']
         v.nontrivial = len(case['order']) >= 3
         v.info['isolation:%d-objects' % len(objs)] = 1
+        self.__dict__.setdefault('_orders', set()).add((tuple(case['order']), tuple(o['kind'] for o in objs)))
         solo = [run_solo(o) for o in objs]
         api = {'dt_off': 'dt', 'dt_on': 'dt', 'ct_off': 'ct', 'ct_on': 'ct'}
         try:
@@ -304,6 +305,7 @@ class C11(Prop):
                     break
 
     def extra(self, ctx):
+        ctx.stats['distinct_interleavings_observed'] = len(self.__dict__.get('_orders', ()))
         if ctx.shard != 0:
             return
         self.cross_process(ctx)
